@@ -114,6 +114,8 @@ func (P) Exec(line string) string {
 		return execSched(unhx(f[2]), f[3], f[4] == "1")
 	case "vec":
 		return execVec(unhx(f[2]), f[3], f[4] == "1", atoi(f[5]), unhx(f[6]), atoi(f[7]), unhx(f[8]), f[9] == "1")
+	case "peerhs":
+		return execPeerhs(f[2] == "1", f[3] == "1", f[4], f[5], atoi(f[6]))
 	case "rwio":
 		return execRwio(atoi(f[2]), unhx(f[3]), splitList(f[4], ","), splitList(f[5], ","))
 	case "xell":
